@@ -217,7 +217,7 @@ def run(F, tier, res):
                             '(wrapped text comes from %s, sibling arm yields %s): enabling hyperlinks changes more than the OSC 8 sequences' % (sorted(text_roots)[:4], bad[0][1]), where=F.span_of_call(c))
             else:
                 okw += 1
-    res.rule('C19.WRAPPER', nw, 5, 'call sites of the file-hyperlink formatter; sibling arms of the hyperlink decision print the wrapped text', discharged=okw)
+    res.rule('C19.WRAPPER', nw, 3, 'call sites of the file-hyperlink formatter; sibling arms of the hyperlink decision print the wrapped text', discharged=okw)
     # ---------- TARGET: the path handed to absolute_path for a link is the file name as parsed, not its display form
     DISPLAY_ONLY = ('file_regex_replacement', 'file_modified_label', 'file_added_label', 'file_removed_label', 'file_renamed_label', 'file_copied_label', 'right_arrow')
     nt = okt = 0
@@ -254,7 +254,51 @@ def run(F, tier, res):
                         'named in the section' % ', '.join(sorted(set(bad))[:3]), where=F.span_of_call(c))
         else:
             okt += 1
-    res.rule('C19.TARGET', nt, 5, 'absolute_path call sites: the argument derives from the parsed file name, not from a display transformation', discharged=okt)
+    res.rule('C19.TARGET', nt, 3, 'absolute_path call sites: the argument derives from the parsed file name, not from a display transformation', discharged=okt)
+    # ---------- FALLBACK: where a helper returns Option<link> and its caller supplies the text for the no-link case
+    # (unwrap_or / unwrap_or_else), link text and fallback text must have gone through the same display transformations
+    nfb = okfb = 0
+    for G in sorted(F.fn_bodies):
+        sites = [(i, c) for i, c in F.calls(G) if callee_of(c) in ffl]
+        if not sites or 'Option<' not in F.bodies[G]['mir']['locals'][0]:
+            continue
+        for (i, c) in sites:
+            t_in_g = bool(display_taint(G, c['args'][2]))
+            text_params = {r[1] for r in F.trace(G, c['args'][2]) if r[0] == 'param' and not r[2]}
+            for K in sorted(F.fn_bodies):
+                for (j, ck) in F.calls(K):
+                    if callee_of(ck) != G and (ck.get('resolved') or '') != G:
+                        continue
+                    t_link = t_in_g or any(display_taint(K, ck['args'][k - 1]) for k in text_params if k - 1 < len(ck['args']))
+                    # the consumer of the Option
+                    d = ck['dest']['l'] if not ck['dest']['p'] else None
+                    for (j2, c2) in F.calls(K):
+                        cal2 = callee_of(c2)
+                        if not cal2.endswith(('::unwrap_or_else', '::unwrap_or', '::map_or', '::map_or_else')) or not c2['args']:
+                            continue
+                        if not any(r[0] == 'call' and r[2] == j for r in F.trace(K, c2['args'][0])):
+                            continue
+                        nfb += 1
+                        fb = c2['args'][1] if len(c2['args']) > 1 else None
+                        t_fb = False
+                        if fb is not None:
+                            for r in F.trace(K, fb):
+                                if r[0] == 'agg' and r[1][0] == 'closure' and r[1][1] in F.fn_bodies:
+                                    cl = r[1][1]
+                                    for _, c3 in F.calls(cl):
+                                        if 'RegexReplacement' in callee_of(c3):
+                                            t_fb = True
+                                        for a3 in c3['args']:
+                                            if any(rr[0] == 'param' and rr[2] and rr[2][-1] in DISPLAY_ONLY for rr in F.trace(cl, a3)):
+                                                t_fb = True
+                            t_fb = t_fb or bool(display_taint(K, fb))
+                        if t_fb == t_link:
+                            okfb += 1
+                        else:
+                            res.violate('FALLBACK', 'fn=%s;helper=%s' % (K, G.split('::')[-1]), 'the text shown when a hyperlink is made (%s) and the text shown when none is made (%s) differ by a display '
+                                        'transformation: enabling hyperlinks changes the visible text, not only the OSC 8 sequences' % (
+                                            'transformed' if t_link else 'untransformed', 'transformed' if t_fb else 'untransformed'), where=F.span_of_call(c2))
+    res.rule('C19.FALLBACK', nfb, 0, 'Option-returning link helpers: fallback text of each caller agrees with the link text on display transformations', discharged=okfb)
     # ---------- LINE
     nl = okl = 0
     if ffl:
